@@ -106,6 +106,9 @@ def docstring_lines(c: Ctx, style, ps, ret_typ, documented_types: bool):
     r = c.rng
     lines = []
     summary = r.choice(SUMMARIES)
+    if r.random() < 0.015:
+        summary += r.choice([" Sep is \\t, not \\\\.", " Ends a line with \\r\\n.", " A backslash: \\\\"])  # escape sequences in the docstring text
+        c.features.add("escape-in-docstring")
     if r.random() < 0.9:
         lines.append(summary)
         if r.random() < 0.2:
